@@ -347,7 +347,7 @@ PROPS = {
                        "/ resource JSON shape, exact / s3:* / trailing-* actions, resource globs) vs 'some Allow matches and no Deny matches', plus "
                        "invariance under statement permutation and string<->array re-shaping; (D) documents made invalid for one known reason "
                        "(15 reasons from the statement) must be refused, identically on 26 repetitions, while the valid control is accepted; "
-                       "(B) through the gateway: refused PUT leaves the previous policy byte-exact, model decisions confirmed with real GetObject. Subjects of the matcher contain literal '*' and '?'."),
+                       "(B) through the gateway: refused PUT leaves the previous policy byte-exact, model decisions confirmed with real GetObject. Subjects of the matcher contain literal '*' and '?'. Invalid documents also lack one of the four elements of a statement altogether, or are a valid document followed by further bytes."),
         "level_note": "oracle = model/policy.go written from the statement; '?' is judged only where the byte and the character reading agree. Exploration only.",
         "rule": ("G: (pattern, subject) over {a,b,/,*,?} and a wider alphabet, subjects derived from the pattern then perturbed; non-trivial: >= 2 wildcards. "
                  "E: non-trivial: >= 2 statements of both effects and the query matches at least one statement. D/B: non-trivial: the document "
